@@ -70,6 +70,15 @@ pub fn lock_grid(afters: &[u32], olders: &[u32], thorough: bool) -> (Vec<u32>, V
         seqs.insert(r - 1);
         seqs.insert(*r);
         seqs.insert(r ^ TYPE_FLAG);
+        // the effective value (16 bits + type flag) below / at the lock, with a bit set that BIP 68
+        // ignores: raw comparison and effective comparison disagree
+        let eff = r & (0xffff | TYPE_FLAG);
+        if eff & 0xffff > 0 {
+            seqs.insert((eff - 1) | 0x0001_0000);
+            seqs.insert(eff | 0x0001_0000);
+            seqs.insert(eff - 1);
+            seqs.insert(eff);
+        }
         if thorough {
             seqs.insert(r + 1);
             seqs.insert(r | DISABLE_FLAG);
@@ -180,7 +189,8 @@ pub fn sign_ecdsa(k: &KeyInfo, digest: [u8; 32], hashtype: u8) -> Vec<u8> {
     let msg = Message::from_digest(digest);
     let mut sig = SECP256K1.sign_ecdsa(&msg, &k.sk);
     let mut ctr = 0u32;
-    while sig.serialize_der().len() != 71 && ctr < 64 {
+    let grind = std::env::var("MSVERIF_NO_GRIND").is_err();
+    while grind && sig.serialize_der().len() != 71 && ctr < 64 {
         let mut nd = [0u8; 32];
         nd[..4].copy_from_slice(&ctr.to_le_bytes());
         sig = SECP256K1.sign_ecdsa_with_noncedata(&msg, &k.sk, &nd);
